@@ -1,6 +1,7 @@
 package main
 
 import (
+	"regexp"
 	"os"
 	"fmt"
 	"go/token"
@@ -99,6 +100,7 @@ type InputSym struct {
 type State struct {
 	heap  map[string]string
 	cells map[*Cell]Val
+	tmpl  map[string]string // template state: every component is a placeholder; records key -> sort
 }
 
 func (s *State) clone() *State {
@@ -113,6 +115,8 @@ func (s *State) clone() *State {
 }
 
 type Ctx struct {
+	identities int // goal conjuncts discharged by identity with an assumed fact
+	known map[string]bool // alpha-normalised quantified facts assumed unconditionally
 	W        *World
 	items    []Item
 	obls     []*Obl
@@ -136,10 +140,11 @@ type Ctx struct {
 	// modular bookkeeping
 	externUsed map[string]bool
 	rec        map[string]string // when non-nil: component keys (with sorts) read during spec evaluation
-	opReads    map[string][]string
+	opTmpl     map[string]*opTemplate
 	inlineExtra map[string]bool
 	top        *FuncContract
 	havocAlloc string
+	subTags    int
 	subFuns    []string
 }
 
@@ -189,6 +194,84 @@ func (c *Ctx) assume(guard, fact string) {
 		return
 	}
 	c.items = append(c.items, Item{Kind: "assert", Body: f})
+	if guard == "true" {
+		c.recordKnown(fact, 0)
+	}
+}
+
+var boundVarRe = regexp.MustCompile(`[A-Za-z_][A-Za-z_0-9]*!q[0-9]+`)
+
+// alphaNorm renames bound variables (name!qN) by order of first occurrence.
+func alphaNorm(t string) string {
+	if !strings.Contains(t, "!q") {
+		return t
+	}
+	m := map[string]string{}
+	return boundVarRe.ReplaceAllStringFunc(t, func(v string) string {
+		if r, ok := m[v]; ok {
+			return r
+		}
+		r := fmt.Sprintf("?%d", len(m))
+		m[v] = r
+		return r
+	})
+}
+
+// recordKnown remembers the quantified top-level conjuncts of an unconditionally assumed fact, so that a goal
+// conjunct that is the very same formula (same component versions) is discharged by identity instead of
+// asking a solver to re-instantiate it.
+func (c *Ctx) recordKnown(fact string, depth int) {
+	if c.known == nil {
+		c.known = map[string]bool{}
+	}
+	if strings.HasPrefix(fact, "(and ") && depth < 64 {
+		for _, a := range sexprArgs(fact) {
+			c.recordKnown(a, depth+1)
+		}
+		return
+	}
+	if strings.HasPrefix(fact, "(forall ") {
+		c.known[alphaNorm(fact)] = true
+	}
+}
+
+// sexprArgs returns the arguments of a parenthesised application "(op a b c)".
+func sexprArgs(t string) []string {
+	var out []string
+	i := strings.IndexByte(t, ' ')
+	if i < 0 {
+		return nil
+	}
+	d, start := 0, -1
+	for j := i; j < len(t)-1; j++ {
+		ch := t[j]
+		switch {
+		case ch == '(':
+			if d == 0 && start < 0 {
+				start = j
+			}
+			d++
+		case ch == ')':
+			d--
+			if d == 0 && start >= 0 {
+				out = append(out, t[start:j+1])
+				start = -1
+			}
+		case ch == ' ':
+			if d == 0 && start >= 0 {
+				out = append(out, t[start:j])
+				start = -1
+			}
+		default:
+			if d == 0 && start < 0 {
+				start = j
+			}
+		}
+	}
+	if start >= 0 {
+		out = append(out, t[start:len(t)-1])
+	}
+	return out
 }
 
 func (c *Ctx) declFun(name, args, ret string) {
@@ -455,6 +538,11 @@ func (c *Ctx) fieldLeafRange(S types.Type, i int) (int, int) {
 // Heap components
 
 func (c *Ctx) comp(st *State, key, sort string) string {
+	if st.tmpl != nil {
+		st.tmpl[key] = sort
+		c.compSort[key] = sort
+		return "@C:" + key + "@"
+	}
 	if c.rec != nil {
 		c.rec[key] = sort
 	}
@@ -592,6 +680,10 @@ func (c *Ctx) subRef(S types.Type, field int, ref string) string {
 		inv := name + "_inv"
 		c.declFun(inv, SRef, SRef)
 		c.items = append(c.items, Item{Kind: "assert", Body: fmt.Sprintf("(forall ((r Ref)) (! (and (= (%s (%s r)) r) (not (= (%s r) null)) (not (= (%s r) r))) :pattern ((%s r))))", inv, name, name, name, name)})
+		// embedded structs of different fields (and stand-alone objects, tag 0) are different objects
+		c.declFun("subtag", SRef, SInt)
+		c.subTags++
+		c.items = append(c.items, Item{Kind: "assert", Body: fmt.Sprintf("(forall ((r Ref)) (! (= (subtag (%s r)) %d) :pattern ((%s r))))", name, c.subTags, name)})
 		if a0, ok := c.initial["alloc"]; ok {
 			// an embedded struct exists exactly when its enclosing object does
 			c.items = append(c.items, Item{Kind: "assert", Body: fmt.Sprintf("(forall ((r Ref)) (! (= (select %s (%s r)) (select %s r)) :pattern ((%s r))))", a0, name, a0, name)})
@@ -790,7 +882,8 @@ func (c *Ctx) allocComp(st *State) string { return c.comp(st, "alloc", arrSort(S
 func (c *Ctx) newRef(st *State, guard, prefix string) string {
 	r := c.fresh(prefix, SRef)
 	a := c.allocComp(st)
-	c.assume("true", tAnd(tNot(tEq(r, "null")), tNot(tSel(a, r))))
+	c.declFun("subtag", SRef, SInt)
+	c.assume("true", tAnd(tNot(tEq(r, "null")), tNot(tSel(a, r)), tEq(app("subtag", r), "0")))
 	st.heap["alloc"] = c.define("alloc", arrSort(SRef, SBool), tStore(a, r, "true"))
 	return r
 }
